@@ -76,12 +76,24 @@ def check(prog, r, s):
                 must += 1
                 n = ccount.get((hid, path, eid), 0)
                 need = qcount[(path, eid)]
-                # an occurrence equal to the one queued just before it by the same emitter may be coalesced: every run of
-                # equal occurrences needs at least one delivery (ids never repeat non-adjacently in a script)
-                if n == 0:
+                # Coalescing: an occurrence equal to the immediately preceding one of the same watch MAY be dropped while
+                # that one is still undelivered.  Required deliveries are counted conservatively: the first occurrence of
+                # every run of equal occurrences, plus every further occurrence that was queued after all deliveries
+                # required so far had already reached this handler (its twin cannot be "still undelivered" then).
+                own = [(q2, e2) for q2, p2, e2, _ in qs if p2 == path]
+                cb_times = sorted(sq for sq, hh, pp, ee in h.cbs if hh == hid and pp == path and ee == eid)
+                runs = 0
+                for j, (q2, e2) in enumerate(own):
+                    if e2 != eid:
+                        continue
+                    first_of_run = j == 0 or own[j - 1][1] != eid
+                    if first_of_run or sum(1 for c in cb_times if c < q2) >= runs:
+                        runs += 1
+                all_must = all(h.running_at(q2) and h.continuously_registered(hid, path, q2, end) for q2, p2, e2, _ in qs if p2 == path and e2 == eid)
+                if n == 0 or (all_must and n < runs):
                     raise Violation(
                         f"event {path}/e{eid} queued at t={q} was delivered {n} time(s) to handler {hid}, which was registered for that watch from before "
-                        f"until quiescence (queued {need}x; program {prog})",
+                        f"until quiescence (queued {need}x, {runs} deliveries required, watch's stream {[e for _, e in own]}; program {prog})",
                         "lost-delivery",
                     )
     mut = sum(1 for c in h.calls.values() if c["who"] != "main" and c["form"][0] not in ("start", "stop", "join"))
@@ -108,6 +120,7 @@ FIXED = [
     P(["/p0"], {"/p0": [0, 1, 2]}, [{"reentrant": {"at": 2, "call": ["unschedule", 0]}}], [["schedule", 0, 0]], [[["add", 0, 0]]]),
     P(["/p0", "/p1"], {"/p0": [0, 1], "/p1": [0]}, [{}, {"reentrant": {"at": 1, "call": ["schedule", 1, 0]}}], [["schedule", 0, 0], ["schedule", 1, 1]], [[["unschedule_all"]]]),
     P(["/p0"], {"/p0": [0, 1]}, [{}, {}, {}], [["schedule", 0, 0]], [[["add", 1, 0]], [["add", 2, 0], ["remove", 0, 0]]]),
+    P(["/p0", "/p1"], {"/p0": [0, 1, 0], "/p1": [0, 0, 1]}, [{}], [["schedule", 0, 0], ["schedule", 0, 1]], []),
 ]
 
 NSH = 16
